@@ -62,8 +62,8 @@ def helper_tables(chk, P):
         hb = [bb for bb, t in at.calls() if callee_name(t)[0].endswith("Iterator>::next")]
         if chk.anchor("attrib entry loop", len(hb) == 1):
             subs = [("try(Iterator::find(Node::descendants(node), closure({closure#0})))", "ATTRS"),
-                    ("some!(Iterator::next(IntoIterator::into_iter(Iterator::filter(Node::descendants(ATTRS), closure({closure#1})))))", "ENTRY"),
-                    ("Iterator::next(IntoIterator::into_iter(Iterator::filter(Node::descendants(ATTRS), closure({closure#1}))))", "NEXT"),
+                    ("some!(Iterator::next(Iterator::filter(Node::descendants(ATTRS), closure({closure#1}))))", "ENTRY"),
+                    ("Iterator::next(Iterator::filter(Node::descendants(ATTRS), closure({closure#1})))", "NEXT"),
                     ("Node::first_element_child(ENTRY)", "FIRST")]
             rows = set()
             for fs, eff, how in tab.iteration_table(P, at, hb[0], effects=lambda nm: False):
